@@ -133,12 +133,13 @@ def coq_verdicts(name, progs_, outs, with_time_flags):
         rows = []
         for i in sh:
             o = outs[i]
-            rows.append('(verdicts6 %s %d %s %s %s)' % (enc_codes(o['codes']), progs_[i].get('tick', 0),
+            rows.append('(verdicts7 %s %d %s %s %s)' % (enc_codes(o['codes']), progs_[i].get('tick', 0),
                                                         'true' if with_time_flags[i] else 'false',
                                                         enc_ops(o['ops']), enc_snaps(o['snaps'])))
-        body = 'Definition rows : list (bool * bool * bool * bool * bool * bool) := [\n' + ';\n'.join(rows) + '].\n'
+        body = 'Definition rows : list (bool * bool * bool * bool * bool * bool * bool) := [\n' + ';\n'.join(rows) + '].\n'
         body += 'Definition fi (l : list bool) := (fix go (i : Z) (l : list bool) := match l with [] => [] | b :: t => if b then go (i+1) t else i :: go (i+1) t end) 0 l.\n'
-        body += 'Eval vm_compute in (fi (map (fun r => fst (fst (fst (fst (fst r))))) rows)).\n'
+        body += 'Eval vm_compute in (fi (map (fun r => fst (fst (fst (fst (fst (fst r)))))) rows)).\n'
+        body += 'Eval vm_compute in (fi (map (fun r => snd (fst (fst (fst (fst (fst r)))))) rows)).\n'
         body += 'Eval vm_compute in (fi (map (fun r => snd (fst (fst (fst (fst r))))) rows)).\n'
         body += 'Eval vm_compute in (fi (map (fun r => snd (fst (fst (fst r)))) rows)).\n'
         body += 'Eval vm_compute in (fi (map (fun r => snd (fst (fst r))) rows)).\n'
@@ -149,7 +150,7 @@ def coq_verdicts(name, progs_, outs, with_time_flags):
     verdict = {}
     errors = []
     for sh, r in zip(shards, res):
-        if r[0] != 'ok' or len(r[1]) != 6:
+        if r[0] != 'ok' or len(r[1]) != 7:
             errors.append(str(r[1])[-800:])
             continue
         bad = [set(x) for x in r[1]]
@@ -207,6 +208,46 @@ def py_spec_snaps(o, tick):
                 thr[(f, s)] = t
                 now += tick
     return snaps
+
+
+def py_conserved(o, tick):
+    """The conservation clause of C02 on the implementation's snapshots (one-thread histories): at every get_stats()
+    the times a label reports sum to at most the clock time during which the thread had the profiler enabled -
+    `enabled_time` of Trace/Conserved.v, computed here by the same fold (a step's clock advance counts when the thread
+    is enabled at the step's start; accepted LINE events read the clock twice, accepted RETURN events once)."""
+    codes = o['codes']
+    reg, en, now, ent, k = [], set(), 0, 0, 0
+    threads = {op[1] for op in o['ops'] if op[0] in ('E', 'D', 'L', 'R')}
+    if len(threads) > 1:
+        return True, ''
+    for op in o['ops']:
+        kind = op[0]
+        adv = 0
+        if kind == 'G':
+            if op[2] not in reg and codes[op[2]]['lines']:
+                reg.append(op[2])
+        elif kind == 'A':
+            adv = op[1]
+        elif kind in ('L', 'R'):
+            _, t, c, f, s_, l = op
+            if t in en and c in reg and l in codes[c]['lines']:
+                adv = 2 * tick if kind == 'L' else tick
+        if en:
+            ent += adv
+        now += adv
+        if kind == 'E':
+            en.add(op[1])
+        elif kind == 'D':
+            en.discard(op[1])
+        elif kind == 'S':
+            if k < len(o['snaps']):
+                for lbl, ents in o['snaps'][k]['timings']:
+                    tot = sum(e[2] for e in ents)
+                    if tot > ent:
+                        return False, ('the line times of one function sum to %d ticks at snapshot %d although the profiler '
+                                       'was enabled for only %d ticks (label %r)' % (tot, k, ent, lbl))
+            k += 1
+    return True, ''
 
 
 def hypotheses(o):
@@ -487,6 +528,9 @@ def run_property(prop, module, theorems, tier, seed, nquick, nthorough, feature_
                     ok, why = False, 'reported hit counts differ from the executed line events'
                 elif aspect == 'time' and not p['threads'] and [spec[i] for i in q] != [impl_s[i] for i in q]:
                     ok, why = False, 'reported times differ from the per-activation specification'
+        if ok and aspect == 'time' and not p['threads'] and hyp['NoCollision'] and hyp['LabelsDistinct']:
+            # conservation (Props/C02.v C02_conserved) holds for every one-thread history, self-disabling code included
+            ok, why = py_conserved(o, p.get('tick', 0))
         if ok and aspect == 'time' and any(abs(x.get('unit', 1e-9) - 1e-9) > 1e-24 for x in o['snaps']):
             # times are compared as integer ticks; the tick the profiler announces must be the nanosecond they are in
             ok, why = False, 'the reported timer unit is %r, the ticks are nanoseconds' % ([x.get('unit') for x in o['snaps']][:1],)
@@ -530,6 +574,8 @@ def run_property(prop, module, theorems, tier, seed, nquick, nthorough, feature_
             res.infra_errors.append('theorem right-hand side and executable specification disagree on program %d' % i)
         if v is not None and not v[5] and not ok:
             pass
+        if v is not None and len(v) > 6 and not v[6] and ok and aspect == 'time' and not p['threads']:
+            ok, why, fid = False, 'conservation evaluated in Coq on the implementation\'s snapshots fails: a label\'s line times sum to more than enabled_time (Shard.conserved_ok)', None
         if v is not None and not v[0]:
             res.mismatches.append(dict(case=sample(p, o, 40), program=p['files'], impl=dict(snaps=o['snaps'][:2]),
                                        model='concrete tracer model disagrees with the implementation'))
@@ -537,7 +583,8 @@ def run_property(prop, module, theorems, tier, seed, nquick, nthorough, feature_
             coq_ok = {'hits': v[1], 'time': v[1] and v[2], 'mono': v[3]}[aspect]
             if coq_ok != ok and not p['threads'] and (o.get('errA') == o.get('errB')) and hyp.get('SegmentsClosed', True) \
                     and hyp.get('SnapsQuiescent', True) and not o.get('impure') and 'mid-run read' not in why \
-                    and not o.get('not_registered') and 'decorated function' not in why and 'enable window' not in why and 'timer unit' not in why:
+                    and not o.get('not_registered') and 'decorated function' not in why and 'enable window' not in why and 'timer unit' not in why \
+                    and 'line times' not in why:
                 res.infra_errors.append('Coq-side and Python-side specification disagree on program %d (%s vs %s: %s)' % (i, coq_ok, ok, why))
         if not ok:
             res.spec_fails.append(dict(case=sample(p, o, 60), program=p['files'], why=why, finding=fid,
